@@ -8,7 +8,7 @@ a machine-specific code of one machine never equals the same number of another m
 common codes do.  Inputs: generated symbol tables (all type x binding x visibility codes,
 zero size, SHN_ABS, SHN_UNDEF, section symbols, long and empty names, 0 and 5000 symbols,
 ELF32/ELF64, LSB/MSB, every machine elf.h knows), the sample binaries, freshly linked objects."""
-import glob, json, os, random, re
+import glob, json, os, random, re, shutil, subprocess
 from vf import common, zcheck, dwgen, elfread, dwcorpus
 from vf.dwgen import Die, Unit, Forest
 
@@ -175,6 +175,49 @@ def job(payload):
                         keep = True
                         break
                 d.req("qdestroy id=c18q")
+            # an ar archive of relocatable members: `symbol` lists the tables of all members, one after the other, each numbered from zero
+            rel = []
+            if machines and shutil.which("ar"):
+                # (members of one archive share the machine: the file's machine decides the constant families)
+                m0 = machines[0]
+                for j in range(rng.randint(2, 3)):
+                    msyms = gen_symbols(rng, "small")
+                    cu = Die("compile_unit", [("name", "string", b"m%d.c" % j)])
+                    fm = Forest([Unit(cu, 4, addr_size=8)], machine=m0, elfclass=64, big=False, symbols=msyms)
+                    wm = dwgen.Writer(fm)
+                    ab, inf = wm.layout()
+                    mp = os.path.join(common.RUN, "syms", "c18-%d-member%d.o" % (seed, j))
+                    open(mp, "wb").write(dwgen.build_elf(64, False, m0, [(b".debug_abbrev", ab, 1), (b".debug_info", inf, 1), (b".debug_str", b"\0", 1)], msyms, etype=1))
+                    rel.append((mp, "member%d (machine %d, %d symbols)" % (j, m0, len(msyms))))
+                    made.append((mp, rel[-1][1]))
+            if len(rel) >= 2:
+                arp = os.path.join(common.RUN, "syms", "c18-%d.a" % seed)
+                if os.path.exists(arp):
+                    os.unlink(arp)
+                members = rel[:3]
+                if subprocess.run(["ar", "rcs", arp] + [p for p, _ in members], stdout=subprocess.PIPE, stderr=subprocess.PIPE).returncode == 0:
+                    ra = d.run(Q, inp="d:" + common.hx(arp), fuel=0, max=2000000, timeout=600)
+                    out["archives"] = out.get("archives", 0) + 1
+                    want = []
+                    for p, tag in members:
+                        for i, sy in enumerate(elfread.read_symtab(p)["syms"]):
+                            want.append((i, sy["name"], sy["size"], sy["info"] & 0xf, sy["info"] >> 4, sy["other"] & 3))
+                    if ra["st"] != "done":
+                        out["bad"].append(("archive-symbol-query-failed", dict(archive=[t for _, t in members], st=ra["st"], msg=ra.get("msg")))); keep = True
+                    else:
+                        got = []
+                        for k, res in enumerate(ra["res"]):
+                            e = res[-1]["v"]
+                            got.append((res[-2]["idx"], bytes.fromhex(e[1]["v"]), int(e[3]["v"]), int(e[8]["v"]), int(e[9]["v"]), int(e[10]["v"])))
+                            if res[-2]["p"] != k:
+                                out["bad"].append(("archive-symbols-not-numbered-consecutively", dict(archive=[t for _, t in members], at=k, pos=res[-2]["p"]))); keep = True; break
+                        if got != want:
+                            k = next((i for i, (a, b) in enumerate(zip(got, want)) if a != b), min(len(got), len(want)))
+                            out["bad"].append(("archive-symbols-differ-from-the-members-tables", dict(archive=[t for _, t in members], want_count=len(want), got_count=len(got), first_difference=k,
+                                                                                                       got=str(got[k])[:120] if k < len(got) else None, want=str(want[k])[:120] if k < len(want) else None)))
+                            keep = True
+                    if not keep:
+                        os.unlink(arp)
             if not keep:
                 for p, tag in made:
                     os.unlink(p)
@@ -248,7 +291,7 @@ def run(chk):
         "rule": "one evaluation = one symbol table entry compared field by field (+3 constant renderings) or one cross-machine equality cell; distinct_nontrivial = files",
         "files": tot.get("files", 0), "generated_files": tot.get("machines", 0), "machines_in_elf_h": len(machines),
         "constant_renderings_checked": tot.get("renderings", 0), "of_which_named_by_elf_h": tot.get("named", 0),
-        "cross_machine_cells": tot.get("cross", 0), "renderings_relative_to_an_elf_h_range_marker_checked": tot.get("relative_renderings", 0), "runs_of_one_compiled_query_over_files_of_different_machines": tot.get("shared_query_runs", 0),
+        "cross_machine_cells": tot.get("cross", 0), "ar_archives_of_generated_members_listed": tot.get("archives", 0), "renderings_relative_to_an_elf_h_range_marker_checked": tot.get("relative_renderings", 0), "runs_of_one_compiled_query_over_files_of_different_machines": tot.get("shared_query_runs", 0),
         "samples": samples[:6],
     })
     chk.assumptions += ["values of symbols defined in sections of ET_REL files are relocated by libdwfl and not judged; SHN_ABS/SHN_UNDEF symbols and all symbols of ET_EXEC/ET_DYN files are",
